@@ -137,11 +137,52 @@ func c07Corpus(c *Ctx, r *rand.Rand) []map[string]string {
 		}
 		out = append(out, map[string]string{"main/main.go": mapOpsToScript(mk, randMapHistory(r, nk, 5+r.Intn(25), 0))})
 	}
+	out = append(out, map[string]string{"main/main.go": c07MakeProgram})
 	for _, g := range extraCorpus {
 		out = append(out, g(c, r)...)
 	}
 	return out
 }
+
+// every form of make (with and without size hints, named types), inside functions, loops and as
+// package-level initialisers
+const c07MakeProgram = `package main
+
+type M map[string]int
+type L []int
+
+var cache = make(map[string]int, 16)
+var plain = make(map[int]string)
+var buf = make([]int, 4)
+
+func build(n int) map[string]int {
+	m := make(map[string]int, n)
+	for i := 0; i < n; i++ {
+		t := make(map[int]int, i+1)
+		t[i] = i
+		m["k"] += len(t)
+	}
+	return m
+}
+
+func named(n int) int {
+	a := make(M, n)
+	b := make(L, n)
+	a["x"] = n
+	if n > 1 {
+		c := make([]string, n)
+		return len(c) + len(b) + a["x"]
+	}
+	return len(b)
+}
+
+func Main() {
+	cache["a"] = 1
+	plain[2] = "b"
+	buf[1] = 7
+	println(len(build(3)), named(1), named(3), len(cache), len(plain), buf[1])
+}
+`
 
 // extraCorpus lets later generators (control flow, scoping, calls ...) contribute programs.
 var extraCorpus []func(c *Ctx, r *rand.Rand) []map[string]string
@@ -253,11 +294,16 @@ func checkC07(c *Ctx) {
 	}
 
 	// ---- M3: step traces of real runs
+	progByID := map[string]*absProg{}
+	for _, p := range progs {
+		progByID[p.ID] = p
+	}
 	obs := map[string]map[string]any{}
 	obsSrc := map[string]string{}
 	for i, files := range corpus {
 		for _, opt := range []bool{true, false} {
-			c07Trace(c, files, opt, obs, obsSrc, fmt.Sprintf("prog%d/opt=%v", i, opt))
+			pid := fmt.Sprintf("prog%d/opt=%v", i, opt)
+			c07Trace(c, files, opt, obs, obsSrc, pid, progByID[pid])
 		}
 	}
 	// statement-only Eval programs leave nothing behind
@@ -285,9 +331,17 @@ func checkC07(c *Ctx) {
 		lineKeys = append(lineKeys, k)
 	}
 	c.Extra["distinct_observed_transitions"] = len(obs)
+	if _, ok := obs["fresh|0"]; !ok {
+		fatalf("no first store into a fresh local slot was observed: the frame-isolation invariant was not exercised")
+	}
+	c.Extra["frame_isolation"] = "first stores into local slots of new call frames were observed and found empty slots"
 	bad := classifyFlatTrace(c, "Trace_GoatVM", "Trace_GoatVM.cfg", lines)
 	for _, idx := range bad {
 		l := lines[idx]
+		if l["kind"] == "fresh" {
+			c.violate(hashKey(lineKeys[idx]), fmt.Sprintf("the first store into a local slot of a new call frame found a left-over value there (type tag %v) instead of an empty slot: frames are not isolated; first seen in %v", l["n"], l["src"]), map[string]any{"observation": l, "program": obsSrc[lineKeys[idx]]})
+			continue
+		}
 		if l["kind"] == "residue" {
 			c.violate(hashKey(lineKeys[idx]), fmt.Sprintf("a program made only of statements left %v residual value(s): %v", l["n"], l["src"]), map[string]any{"source": l["src"]})
 			continue
@@ -327,6 +381,19 @@ var seedStatementSnippets = []string{
 	"import \"fmt\"; fmt.Sprint(1)",
 	"import \"strings\"; strings.Repeat(\"a\", 2)",
 	"func f(a int) bool { return a > 0 }; switch { case f(1): }",
+	// every form of make, new, copy, delete, len, cap-less builtins and conversions as statements / initialisers
+	"m := make(map[string]int, 8); m[\"a\"] = 1",
+	"m := make(map[string]int); n := make(map[int][]int, 2); _ = m; _ = n",
+	"s := make([]int, 3); t := make([]string, 0); s[0] = len(t)",
+	"type M map[string]int; m := make(M, 4); m[\"k\"] = 2",
+	"type L []int; l := make(L, 2); l[1] = 5",
+	"a := []int{1, 2, 3}; b := make([]int, 2); copy(b, a); copy(b, a[1:])",
+	"x := float64(3); y := int(x); z := uint8(y); s := string(rune(65)); _ = z; _ = s",
+	"var f func(int) int; f = func(a int) int { return a }; f(1); g := f; _ = g(2)",
+	"for i := 0; ; i++ { if i > 1 { break } }",
+	"i := 0; for ; i < 2; i++ { }; for ; i < 4; { i++ }",
+	"xs := []int{1, 2}; for i := range xs { xs[i]++ }; for range xs { }",
+	"func v(xs ...int) int { return len(xs) }; v(); v(1, 2); v([]int{1}...)",
 }
 
 func (p *absProg) lineOf(pc int) int {
@@ -415,7 +482,7 @@ func c07ReportStatic(c *Ctx, progs []*absProg, base int, out string) {
 }
 
 // c07Trace runs one program with the tracer and adds its distinct intra-frame transitions to obs.
-func c07Trace(c *Ctx, files map[string]string, opt bool, obs map[string]map[string]any, obsSrc map[string]string, id string) {
+func c07Trace(c *Ctx, files map[string]string, opt bool, obs map[string]map[string]any, obsSrc map[string]string, id string, prog *absProg) {
 	var steps []goat.VerifStepInfo
 	goat.VerifSetTracer(func(s goat.VerifStepInfo) {
 		if len(steps) < 300000 {
@@ -428,7 +495,60 @@ func c07Trace(c *Ctx, files map[string]string, opt bool, obs map[string]map[stri
 	// next executed instruction of the same frame: the first later step whose call depth is <= ours
 	// stack of pending steps per call depth
 	pending := map[int]int{}
+	// frame isolation: the first store into a local slot of a new activation (parameters excepted) must
+	// find the slot empty - whatever earlier activations left at that stack position
+	capAll := 0
+	for _, s := range steps {
+		if s.CodeCap > capAll {
+			capAll = s.CodeCap
+		}
+	}
+	nargsOf := func(s goat.VerifStepInfo) int {
+		if prog == nil {
+			return -1
+		}
+		body0 := capAll - s.CodeCap // index (0-based) of the first instruction of the frame's code
+		for f, ins := range prog.Code {
+			if ins.Op != "FUNC" {
+				continue
+			}
+			na := ins.X1
+			if na < 0 {
+				na = -na
+			}
+			if f+1+na+ins.X2 == body0 && ins.C == s.CodeLen {
+				return na
+			}
+		}
+		return -1
+	}
+	type activation struct {
+		nargs   int
+		written map[int]bool
+	}
+	acts := map[int]*activation{}
 	for j, s := range steps {
+		if j > 0 && steps[j-1].CallDepth < s.CallDepth && s.N == 0 {
+			acts[s.CallDepth] = &activation{nargs: nargsOf(s), written: map[int]bool{}}
+		}
+		if a := acts[s.CallDepth]; a != nil && a.nargs >= 0 {
+			switch s.Op {
+			case "LOCALSET", "LOCALZERO":
+				if s.A >= a.nargs && !a.written[s.A] {
+					k := fmt.Sprintf("fresh|%d", s.SlotType)
+					if _, ok := obs[k]; !ok {
+						obs[k] = map[string]any{"kind": "fresh", "n": s.SlotType, "op": s.Op, "a": s.A, "b": 0, "c": 0, "x1": 0, "x2": 0, "delta": 0, "next": 0, "src": fmt.Sprintf("%s line %d (%s)", id, s.Line, s.Func)}
+						obsSrc[k] = id
+					}
+				}
+				a.written[s.A] = true
+			case "RANGE", "LOCALINCDEC":
+				a.written[s.A] = true
+			case "ITER":
+				b1, b2 := goat.VerifSplit(s.B)
+				a.written[b1], a.written[b2] = true, true
+			}
+		}
 		// every pending step at a depth greater than s.CallDepth has left its frame
 		for d := range pending {
 			if d > s.CallDepth {
